@@ -87,6 +87,35 @@ def run(tier, seed, replay=None):
             t2, _ = ttf.parse(open(os.path.join(d, "out2.ttf"), "rb").read())
             if t1.get(b"Feat") != t2.get(b"Feat"):
                 bad.append("(generation 2) Feat table differs from generation 1 (label ids not reused)")
+        # recompilation with some labels reworded: every label must resolve to the string declared NOW
+        labs = [(f, l) for f in prog.features for l in f["labels"]] + [(st, l) for f in prog.features for st in f["settings"] for l in st["labels"]]
+        if rc2 == 0 and labs and i % 2 == 0:
+            import copy
+            prog3 = copy.deepcopy(prog)
+            labs3 = [l for f in prog3.features for l in f["labels"]] + [l for f in prog3.features for st in f["settings"] for l in st["labels"]]
+            mode = crng.choice(["english", "other", "any"])
+            cand = [l for l in labs3 if (mode == "any" or (l[0] == 1033) == (mode == "english"))] or labs3
+            changed = []
+            for l in crng.sample(cand, crng.randint(1, min(3, len(cand)))):
+                new = l[1] + " reworded"
+                prog3.feature_text = prog3.feature_text.replace('string("%s")' % l[1], 'string("%s")' % new)
+                changed.append([l[0], l[1], new])
+                l[1] = new
+            prog3.font = open(os.path.join(d, "out.ttf"), "rb").read()
+            r3 = harness.compile_cases(build, work, [(name + "_rw", prog3)], extra_args=opts)[0]
+            stats["reworded_" + mode] += 1
+            if r3["rc"] != 0:
+                bad.append("(reworded labels %s) recompiling failed" % changed)
+            else:
+                load3, res3 = drive16(r3["dir"], "in.ttf", "out.ttf")
+                stats["fonts"] += 1
+                b3 = ["(recompiled with labels reworded: %s) %s" % (changed, l) for l in res3 if not l.startswith("ok ")]
+                if b3:
+                    shutil.copy(os.path.join(r3["dir"], "p.gdl"), os.path.join(d, "reworded.gdl"))
+                    shutil.copy(os.path.join(r3["dir"], "p.ir.json"), os.path.join(d, "reworded.ir.json"))
+                    shutil.copy(os.path.join(r3["dir"], "out.ttf"), os.path.join(d, "reworded_out.ttf"))
+                bad += b3
+            shutil.rmtree(r3["dir"], ignore_errors=True)
         # known finding: labels that have no English (1033) form are not recognised on recompilation
         no_eng = any(not any(l[0] == 1033 for l in f["labels"]) for f in prog.features) or \
             any(not any(l[0] == 1033 for l in st["labels"]) for f in prog.features for st in f["settings"])
@@ -96,7 +125,7 @@ def run(tier, seed, replay=None):
                 rep.violation(name + "-reuse", {"case": name, "lines": reuse, "feature_table": prog.feature_text}, signature=NOENG_SIG)
                 bad = [b for b in bad if b not in reuse]
         if bad:
-            dd = harness.save_case(rep, r, name, extra_files=("out2.ttf",))
+            dd = harness.save_case(rep, r, name, extra_files=("out2.ttf", "reworded.gdl", "reworded.ir.json", "reworded_out.ttf"))
             rep.violation(name, {"case": name, "options": opts, "checker_lines": bad[:12], "feature_table": prog.feature_text,
                                  "rerun": "cd %s && printf 'infont in.ttf\\nfont out.ttf\\nir p.ir.json\\nc16\\n' | %s" % (dd, common.grcv_path())})
         if len(samples) < 3:
@@ -106,7 +135,7 @@ def run(tier, seed, replay=None):
         "programs": n, "fonts_checked": stats["fonts"], "rejected": stats["rejected"],
         "traces_validated_against_impl": stats["fonts"], "disagreements_checked": len(rep.violations),
         "evaluations": stats["fonts"], "distinct_nontrivial": len(distinct),
-        "rule": "generated feature tables (1-6 features, numeric / 4-char ids, hidden alternate ids, 0-3 label languages, 0-4 settings with default) and language tables, over input fonts with different name tables and -n values, each also recompiled from its own output; distinct = distinct checker summaries",
+        "rule": "generated feature tables (1-6 features, numeric / 4-char ids, hidden alternate ids, 0-3 label languages, 0-4 settings with default) and language tables, over input fonts with different name tables and -n values, each also recompiled from its own output, and every second one recompiled once more with 1-3 labels reworded (English only / other languages only / any); distinct = distinct checker summaries",
         "samples": samples, "exhaustive": False,
     })
     rep.assumptions += ["order of the non-default settings is not fixed by the property (the compiler sorts by value)", "Macintosh-platform records are not examined (the property names the Unicode and Microsoft platforms)"]
